@@ -758,7 +758,32 @@ impl Hist {
 				_ => s1.ttl_cutoff_height = self.p.below(self.s.node.height() + 3),
 			}
 		}
-		let r = guarded(|| self.s.with(r_i, |b, m| foreign::receive_tx(b, m, &s1, dest_name, false)));
+		// one delivery in six comes through the listener's API object with a return address of the caller's
+		// choosing (JSON-RPC receive_tx, third parameter): junk, nothing, or a well-formed address the wallet has
+		// no way to reach — the reply is the slate all the same
+		let via_api = self.p.chance(1, 6);
+		let r = if via_api {
+			let ret_addr: Option<String> = match self.p.below(3) {
+				0 => Some("x".to_owned()),
+				1 => Some(String::new()),
+				_ => {
+					let (ainst, amask) = (self.s.wallets[sender].inst.clone(), self.s.wallets[sender].mask.clone());
+					let a = guarded(|| owner::get_slatepack_address(ainst, amask.as_ref(), 0).map(|a| a.to_string()));
+					match a {
+						Ok(Ok(s)) => Some(s),
+						_ => Some("x".to_owned()),
+					}
+				}
+			};
+			let inst = self.s.wallets[r_i].inst.clone();
+			let mask = self.s.wallets[r_i].mask.clone();
+			guarded(|| {
+				let api = vharness::api::Foreign::new(inst, mask, None, false);
+				api.receive_tx(&s1, dest_name, ret_addr)
+			})
+		} else {
+			guarded(|| self.s.with(r_i, |b, m| foreign::receive_tx(b, m, &s1, dest_name, false)))
+		};
 		let rc = rc_of(&r);
 		let crypto_ok = !(rc.len() == 2 && rc[1] == 17);
 		if let Ok(Ok(s2)) = &r {
@@ -776,7 +801,7 @@ impl Hist {
 			json!({"k": "receive", "slate": num, "amount": s1.amount.to_string(), "ttl": s1.ttl_cutoff_height,
 				"dest": dest, "crypto_ok": crypto_ok}),
 			rc,
-			json!({"foreign": true, "reply_participants": reply_parts, "tampered": tampered}),
+			json!({"foreign": true, "reply_participants": reply_parts, "tampered": tampered, "via_api": via_api}),
 		);
 	}
 	fn lock(&mut self, f: usize) {
